@@ -60,6 +60,12 @@ def gen_cases(tier, seed):
                     # same frequency-slicing code path); thorough: everywhere
                     full = tier == "thorough" or cls in ("RadioSignal", "DualPolarizationSignal")
                     yield {"cls": cls, "nchan": n, "align": align, "band": list(band), "full": full}
+    # band centre and channel width given as single-precision Quantities (e.g. read from a header record with f4 fields)
+    for cls in ("RadioSignal", "BasebandSignal", "FullStokesSignal"):
+        for n in (1, 2, 5, 6):
+            for align in A:
+                for band in (BANDS[7], BANDS[2]):
+                    yield {"cls": cls, "nchan": n, "align": align, "band": list(band), "full": False, "f32": True}
 
 
 def labels_of(q):
@@ -71,6 +77,8 @@ def build(case):
     cls, n = case["cls"], case["nchan"]
     fcv, fcu, bwv, bwu = case["band"]
     fc, bw = fcv * u.Unit(fcu), bwv * u.Unit(bwu)
+    if case.get("f32"):
+        fc, bw = np.float32(fcv) * u.Unit(fcu), np.float32(bwv) * u.Unit(bwu)
     L = 6
     ss = factory.sample_shape(cls, n, extra=(3,) if cls in ("RadioSignal", "IntensitySignal") else ())
     x = factory.payload(L, ss, factory.default_dtype(cls))
